@@ -240,26 +240,11 @@ def run(ctx):
         for bb, k, tgt, c in F.inst_edges(nd["id"]):
             if k == "local" and F.def_of(tgt) in comp_defs:
                 callers.add(nd["def"])
-    # wrappers (CommandAcknowledgement::done) are followed one level up until a non-forwarding caller
-    frontier = set(callers)
+    # where do the callers run: the spawned closures / caller-less entry points they are reached from
+    from ackmodel import thread_roots
     final_callers = set()
-    seen = set()
-    while frontier:
-        d = frontier.pop()
-        if d in seen:
-            continue
-        seen.add(d)
-        fn = F.fn(d)
-        if fn is not None and fn.kind != "Closure" and len(fn.calls()) == 1 and d not in spawn:
-            ups = set()
-            for nd in F.nodes:
-                for bb, k, tgt, c in F.inst_edges(nd["id"]):
-                    if k == "local" and F.def_of(tgt) == d:
-                        ups.add(nd["def"])
-            if ups:
-                frontier |= ups
-                continue
-        final_callers.add(worker_root(F, d, spawn))
+    for d in callers:
+        final_callers |= thread_roots(F, d, spawn)
     workers = {d for d in final_callers if d in spawn}
     ctx.check(final_callers and final_callers == workers and len(workers) == 1, "R12.5", "completion-only-from-worker",
               "the completion function is called only from one spawned worker closure (single completer => status written once per acknowledgement, see R11.3)",
